@@ -552,6 +552,9 @@ def cases(ctx):
             other = fset[(idx + 1) % len(fset)]
             for name, (fn, shape, dom, args) in specs_names:
                 a = list(args(hx, other, rng))
+                # (the calls travel to the other configuration as JSON: datetime / numpy time stamps become plain numbers here -
+                #  the stamp forms themselves are C14's business)
+                a = [x if isinstance(x, (str, int, float, bool, type(None))) and not hasattr(x, "dtype") else j_ for j_, x in enumerate(a)]
                 calls.append([name, a])
             for extra in ("tell", "pms.df", "pms.icao", "pms.crc", "bds53.is53", "bds53.vr53", "bds53.hdg53"):
                 if len(hx) == 28:
